@@ -1102,6 +1102,20 @@ def boundary_graphs():
                         ("bin", "+", ("id", "C1"), ("bin", "*", ("id", "Vz"), ("int", 100000, "dec"))))))
     fin(b, [("v", sk), ("v", cv), ("s", cv, 7), ("v", tg), ("v", cv), ("v", sh), ("s", sh, 50), ("v", tg), ("mn", sk), ("mx", cv),
             ("inc", sk), ("s", sk, 1), ("v", sk2)])
+    # 8: is_done through readability: write-only register below swiss knives / a float chain
+    b = Builder(rng)
+    wo = b.add(dict(kind="intreg", reg=dict(addrs=[("addr", ("imm", BASE + 2))], length=("imm", 1), acc="WO", port=None),
+                    sign=0, endian=0))
+    rw = intreg(b, [("addr", ("imm", BASE + 3))], 1)
+    sk = b.add(dict(kind="swissknife", knife=dict(vars=[("Va", wo)], consts=[], exprs=[]), f=("bin", "+", ("id", "Va"), ("int", 0, "dec"))))
+    isk = b.add(dict(kind="intswissknife", knife=dict(vars=[("Va", wo)], consts=[], exprs=[]), f=("id", "Va")))
+    sk2 = b.add(dict(kind="swissknife", knife=dict(vars=[("Va", rw)], consts=[], exprs=[]), f=("bin", "+", ("id", "Va"), ("int", 0, "dec"))))
+    fl = b.add(dict(kind="float", vk=("pvalue", sk, [], []), mn=None, mx=None, inc=None,
+                    mn_m=("imm", b.slot(("f", 0xFFEFFFFFFFFFFFFF))), mx_m=("imm", b.slot(("f", 0x7FEFFFFFFFFFFFFF)))))
+    # command values equal to the register contents: "done" can then only come from unreadability
+    cmds = [b.add(dict(kind="command", v=("node", t), cv=("imm", b.slot(("i", c)))))
+            for t, c in ((sk, 2), (isk, 2), (fl, 2), (sk2, 3), (wo, 2), (rw, 3))]
+    fin(b, [("dn", c) for c in cmds] + [("s", rw, 3)] + [("dn", c) for c in cmds] + [("ex", cmds[5]), ("ex", cmds[4]), ("ex", cmds[0])])
     return gs
 
 
